@@ -3,6 +3,7 @@ import TextxVerif.Proofs.ResolveAttrs
 import TextxVerif.Proofs.ResolveQuery
 import TextxVerif.Proofs.ResolveOrder
 import TextxVerif.Proofs.ResolveSched
+import TextxVerif.Proofs.ResolveHist
 /-!
 # C09 — postponed resolution reaches the right fixpoint and terminates
 
@@ -479,6 +480,65 @@ theorem C09_nonmono_order_false :
 /-! non-vacuity: a counting provider (reference 0 is postponed on its first two calls) -/
 example : loopO (countOracle fun r => if r = 0 then 2 else 0) 4 [] [0, 1, 2] [] = ([0], [2, 1]) := by decide
 example : loopO (countOracle fun r => if r = 0 then 1 else 0) 4 [] [0, 1, 2] [] = ([], [0, 2, 1]) := by decide
+
+/-! ## several loads with one meta-model (round V09)
+
+`runH` (TextxVerif/ResolveHist.lean) mirrors what `parse_tree_to_objgraph` does with the repository:
+the loop runs over *every* model of the repository that carries a resolver, a failed load removes
+the models it was resolving, a successful one drops their resolvers.  The theorems say that this
+clean-up makes the outcome of a load a function of its own program (and of which of its files an
+earlier successful load already finished) — whatever was loaded before, resolvable or not. -/
+
+/-- **A load depends on its own program only.** A history of loads with one meta-model (with or
+without a global repository), started in a repository in which nothing is under construction,
+gives load by load the result of the resolver loop on the load's own freshly parsed files; of the
+earlier loads only the keys of the files that *successful* loads finished matter. -/
+theorem C09_history_indep (glob : Bool) (hist : List (Provider × Prog)) (repo : Repo) (h : Clean repo) :
+    runH glob repo hist = specH glob (repo.map (·.key)) hist :=
+  runH_eq_specH glob hist repo h
+
+/-- **A failed load leaves no trace:** the repository after it is the repository before it. -/
+theorem C09_history_failed_load (P : Provider) (repo : Repo) (files : Prog) (h : Clean repo)
+    (hfail : (loadH P repo files).1.1.flatten ≠ []) : (loadH P repo files).2 = repo := by
+  unfold loadH at hfail ⊢
+  simp only [] at hfail ⊢
+  by_cases hok : (loopFiles P ((building (addFiles repo files)).flatten.length + 1)
+      (building (addFiles repo files)) []).1.flatten = []
+  · rw [if_pos hok] at hfail
+    exact absurd hok hfail
+  · rw [if_neg hok]
+    exact remove_addFiles repo files h
+
+/-- between two loads no model of the repository is under construction, whatever the outcome -/
+theorem C09_history_clean (P : Provider) (repo : Repo) (files : Prog) :
+    Clean (loadH P repo files).2 := by
+  unfold loadH
+  simp only []
+  split
+  · exact clean_finish _
+  · exact clean_remove _
+
+/-- without a global repository every load is the loop on all files of its program -/
+theorem C09_history_local : ∀ (hist : List (Provider × Prog)),
+    runH false [] hist =
+      hist.map fun pf => loopFiles pf.1 ((pf.2.map (·.2)).flatten.length + 1) (pf.2.map (·.2)) []
+  | [] => rfl
+  | (P, files) :: rest => by
+      rw [C09_history_indep false _ [] (by intro m hm; cases hm)]
+      have ih := C09_history_local rest
+      rw [C09_history_indep false _ [] (by intro m hm; cases hm)] at ih
+      have hf : freshFiles [] files = files := by
+        unfold freshFiles
+        simp
+      simp only [specH, List.map_nil, hf, List.map_cons] at ih ⊢
+      simp only [Bool.false_eq_true, if_false]
+      rw [ih]
+
+/-! non-vacuity: global repository, a cycle (load 1 fails), then a resolvable program that shares the
+library file 0 with it: the second load parses the library again and succeeds; a third load finds the
+library finished -/
+example : runH true [] [(exP, [(100, [2, 3]), (0, [0])]), (exP, [(101, [1]), (0, [0])]), (exP, [(102, [5]), (0, [0])])]
+    = [([[2, 3], []], [0]), ([[], []], [1, 0]), ([[]], [5])] := by decide
 
 /-! non-vacuity of the order theorems: `[0, 1]` is an order for `[1, 0]`, `[1, 0]` is not;
 a dead program has none; two files stepped in turn -/
